@@ -124,3 +124,13 @@ SHARDS.update({
 SHARDS.update({
     "urwid/widget/listbox.py:ListBox.change_focus#C07-scroll": (4, 6),
 })
+
+# ListBox page up / page down: ~2600 paths each, ~45 min on one core -> thorough tier only, 16 shards
+THOROUGH_ONLY = THOROUGH_ONLY + (
+    "urwid/widget/listbox.py:ListBox._keypress_page_up",
+    "urwid/widget/listbox.py:ListBox._keypress_page_down",
+)
+SHARDS.update({
+    "urwid/widget/listbox.py:ListBox._keypress_page_up": (16, 12),
+    "urwid/widget/listbox.py:ListBox._keypress_page_down": (16, 12),
+})
